@@ -118,9 +118,14 @@ def run(ctx: Ctx) -> None:
     if ok:
         ok = unparse(opt[0].value.args[0]) in ('np.array(self.id_manager.free_betas_values)', 'self.id_manager.free_betas_values')
     ctx.add('C15.R5', 'estimate:restart', ok, e, 'the saved point is loaded before the optimiser is started from free_betas_values' if ok else 'the optimiser does not start from the loaded iteration', 'restart')
-    ci = B.methods['change_init_values']
-    ok = 'self.id_manager.free_betas_values[i] = value' in unparse(ci.node)
-    ctx.add('C15.R5', 'change_init_values:vector', ok, ci, 'loading also updates the vector the optimiser starts from' if ok else 'change_init_values no longer updates free_betas_values', 'vector')
+    from ..packs import ord_pack
+
+    sub = Ctx(prog, ctx.prop, ctx.tier)
+    ord_pack(sub, 'C15.R5')
+    for o in sub.obligations:
+        if o.construct == 'BIOGEME.change_init_values':
+            ctx.add('C15.R5', 'change_init_values:vector', o.ok, (o.file, o.line),
+                    'every loaded value (also 0.0) is copied, by name, into the vector the optimiser starts from' if o.ok else 'the loaded values are not all copied into free_betas_values (the guard must be `is not None`): ' + o.message, o.detail)
 
 
 def _is_alias(f, name: str, target: str) -> bool:
@@ -162,6 +167,8 @@ MUTANTS = [
     dict(name='saved point loaded after the optimisation', rule='C15.R5', file=_B,
          old='            self._load_saved_iteration()\n\n        self.calculate_init_likelihood()', new='            pass\n\n        self.calculate_init_likelihood()'),
 ]
+MUTANTS.append(dict(name='saved zeros are not loaded into the start vector (seed C15/2)', rule='C15.R5', file=_B,
+                    old='            value = betas.get(name)\n            if value is not None:\n                self.id_manager.free_betas_values[i] = value', new='            value = betas.get(name)\n            if value:\n                self.id_manager.free_betas_values[i] = value'))
 NEUTRAL = [
     dict(name='value written with repr', file=_B, old='f"{self.id_manager.free_betas.names[i]} = {v}"', new='f"{self.id_manager.free_betas.names[i]} = {v!r}"'),
     dict(name='temporary name variable renamed', edits=[(_B, 'temporary_name', 'tmp_name', True)]),
